@@ -5,6 +5,23 @@ from . import ctl
 from ..core import Undecided
 
 
+def wildcard_prefix_as_begin(b, cluster):
+    """The listed finding F38: the request's host is covered by a wildcard hostname, the backend chosen is the one of a Prefix path
+    of that wildcard whose text is a character prefix, but not an element prefix, of the request path."""
+    wild = U.REQ_WILD.get(b["host"])
+    if b["inv"] != "RouteOK" or not wild or not cluster:
+        return False
+    path = "".join(b["path"])
+    for t in cluster["ing"].values():
+        for r in (U.ING.get(t) or {}).get("rules", []):
+            if r["host"] != wild:
+                continue
+            for p in r["paths"]:
+                if p["type"] == "prefix" and p["svc"] == b["got"] and path.startswith(p["path"]) and not (path == p["path"] or path.startswith(p["path"].rstrip("/") + "/")):
+                    return True
+    return False
+
+
 def run(ctx):
     core.build_harness(ctx, ["ctl"])
     ctl.design(ctx)
@@ -13,6 +30,10 @@ def run(ctx):
             dict(shards=3, watchwithoutclass=True)]
     hs = ctl.tlc_histories(ctx, 500 if q else 8000, maxops=3, maxbatches=2, tag="sim", opts=opts, secvals=("absent", "v1", "bad"), tmpls=U.CORE_ROUTING,
                            epsids=("e0", "e1", "e2", "e4", "e5"))
+    # wildcard hostnames: a host the wildcard covers, with and without paths of its own; prefix, exact and root paths on the wildcard
+    hs += [dict(h, id=h["id"] + "w") for h in
+           ctl.tlc_histories(ctx, 250 if q else 4000, maxops=3, maxbatches=2, tag="wild", opts=opts, secvals=("absent", "v1"),
+                             tmpls=["t1", "t2", "t8", "t13", "t17", "t18", "t16"], epsids=("e1", "e2"))]
     # half of the histories run with drain-support: not-ready endpoints become weight-0 servers
     for i, h in enumerate(hs):
         if i % 2 == 0:
@@ -58,6 +79,8 @@ def run(ctx):
     seen = set()
     for b in sorted(res["bad"], key=lambda b: (b["step"], b["tr"])):
         sig = "%s:%s:%s" % (b["inv"], b["scheme"], "miss" if b["got"] in ("_error404", "none") else "wrong")
+        if wildcard_prefix_as_begin(b, byh[b["tr"]]["steps"][b["step"]].get("cluster")):
+            sig = "RouteOK:wildcard-prefix-as-begin"
         if sig in seen:
             continue
         seen.add(sig)
